@@ -252,12 +252,17 @@ class ActionLink(Action):
             existing_targets = {a.target[0] for a in link_actions}
             if target in existing_targets:
                 raise ValueError(f'Target "{target}" is already a target of another link.')
+
+            def overlaps(key, others):
+                # the same key, or one of them is a group that contains the other
+                return any(key == o or key.startswith(o + ".") or o.startswith(key + ".") for o in others)
+
             for src in [source] if isinstance(source, str) else source:
-                if src in existing_targets:
+                if overlaps(src, existing_targets):
                     raise ValueError(f'Source "{src}" not allowed since it is the target of another link.')
             # Check target
             existing_sources = {s[0] for a in link_actions for s in a.source if a.apply_on == "parse"}
-            if target in existing_sources:
+            if overlaps(target, existing_sources):
                 raise ValueError(f'Target "{target}" not allowed since it is the source of another link.')
 
     def __call__(self, *args, **kwargs):
